@@ -53,6 +53,36 @@ def plain_objs(objs):
     return out
 
 
+def behaviours_from_wsim(ctx, files):
+    """walks of StorageW.tla (writer lifetimes) -> harness behaviours"""
+    behs = []
+    for i, fn in enumerate(files):
+        v = VARIANTS[(i + ctx.seed) % len(VARIANTS)]
+        bm = BUCKETS[(i // len(VARIANTS) + ctx.seed) % len(BUCKETS)]
+        steps = []
+        for (_a, _args, st) in tlaval.read_simulate(fn):
+            wl, last = st['wlast'], st['last']
+            objs = {}
+            for b, m in st['objs'].items():
+                objs[bm[b]] = {conc_name(n, v): d for n, d in m.items()} if isinstance(m, dict) else {}
+            opened = sorted(bm[w['b']] + '/' + conc_name(w['name'], v) for w in st['ws'].values() if w['st'] == 'open')
+            s = {'op': wl['op'], 'objs': objs, 'via': st['via'], 'open': opened, 'w': wl['w']}
+            if wl['op'] == 'wopen':
+                s.update(b=bm[wl['b']], name=conc_name(wl['name'], v), data=wl['data'])
+            elif wl['op'] in ('wwrite', 'wclose', 'wcloseagain'):
+                s.update(b=bm[wl['b']], name=conc_name(wl['name'], v), data=wl['data'])
+            elif wl['op'] == 'step':
+                s['op'] = last['op']
+                if last['op'] == 'read':
+                    s.update(b=bm[last['b']], name=conc_name(last['name'], v), exists=st['res']['ok'], want=st['res'].get('data', ''))
+                elif last['op'] == 'list':
+                    s.update(b=bm[last['b']], prefix=conc_str(last['prefix'], v), list=[conc_name(n, v) for n in st['res']['names']])
+            steps.append(s)
+        if steps:
+            behs.append({'id': i, 'buckets': sorted(bm.values()), 'steps': steps})
+    return behs
+
+
 def behaviours_from_sim(ctx, files):
     behs = []
     for i, fn in enumerate(files):
@@ -101,6 +131,9 @@ def run(ctx):
         'stored yields an is-a-directory read error instead of not-exist)',
         'Copy(dst, src) is exercised between objects of the same bucket and of two FS buckets below one root, with stored and absent sources and '
         'existing destinations; copying an object onto itself is not generated; for an absent source only "an error and no effect" is required',
+        'writer lifetimes: up to three writers are open at the same time on DIFFERENT objects, each closed once and possibly again; nothing is '
+        'claimed about an object while a writer is open on it, nor about two writers open on one object; operations are still issued one at a '
+        'time (interleaved, not parallel)',
         'listing order is not part of the property: results are compared as sets, duplicates are reported',
         'an object is written in one of three ways: Write calls (two halves; two empty Writes for empty data), NewWriter+Close with no Write call '
         '(empty data only), storage.Copy from a source object in another FS bucket; the result must be the same',
@@ -140,6 +173,31 @@ def run(ctx):
     for m in [x for x in recs if x.get('kind') == 'mismatch']:
         ctx.violation('C18:fsbucket:%s%s' % (m.get('what'), ':' + m['style'] if m.get('op') == 'write' and m.get('style') else ''), m,
                       'behaviour %s step %s (%s %s %s): real FSBucket differs from Storage.tla: %s' % (
+                          m.get('id'), m.get('step'), m.get('op'), m.get('b'), m.get('name') or m.get('prefix'), json.dumps(m)[:700]))
+
+    # ---- 2b. writer lifetimes: two or three writers open at the same time ------
+    r = ctx.tlc('StorageWMC', cfg='StorageWBfs.cfg', label='StorageWBfs', timeout=3000)
+    if not r.ok:
+        raise Infra('StorageW.tla violates its own property (%s %s):\n%s' % (r.error, r.error_name, r.out[-3000:]))
+    r = ctx.tlc('StorageWMC', cfg='StorageWSim.cfg', simulate={'num': ctx.pick(80, 800), 'file': True}, depth=ctx.pick(60, 80), label='StorageWSim', count=False)
+    if r.error:
+        raise Infra('StorageW simulate: %s\n%s' % (r.error, r.out[-2000:]))
+    wbehs = behaviours_from_wsim(ctx, ctx.sim_files(r))
+    nover = sum(1 for b in wbehs for s in b['steps'] if len(s['open']) >= 2)
+    nagain = sum(1 for b in wbehs for s in b['steps'] if s['op'] == 'wcloseagain')
+    if nover < 20 or nagain < 20:
+        raise Infra('writer walks are degenerate: %d steps with two open writers, %d repeated closes' % (nover, nagain))
+    ctx.sample({'kind': 'writer-lifetimes', 'ops': [[s['op'], s.get('w', ''), s.get('name', s.get('prefix', '')), s.get('data', '')] for s in wbehs[0]['steps'][:14]]})
+    recs, rc, out = ctx.run_harness(PKG, 'TestVerifC18Replay', inp={'datas': DATAS, 'behaviours': wbehs}, module_dir='godev', timeout=1500)
+    summ = gu.summary_of(recs, out, 'C18 writers')
+    ctx.cov['writer_behaviours_replayed'] = summ['behaviours']
+    ctx.cov['writer_steps'] = summ['steps']
+    ctx.cov['writer_steps_with_two_open'] = nover
+    ctx.cov['evaluations'] += summ['steps']
+    ctx.cov['traces_validated_against_impl'] += summ['matched']
+    for m in [x for x in recs if x.get('kind') == 'mismatch']:
+        ctx.violation('C18:fsbucket:writers:%s' % m.get('what'), m,
+                      'writer-lifetime behaviour %s step %s (%s %s %s): real FSBucket differs from StorageW.tla: %s' % (
                           m.get('id'), m.get('step'), m.get('op'), m.get('b'), m.get('name') or m.get('prefix'), json.dumps(m)[:700]))
 
     # ---- 3. code -> model: random histories validated by TLC -----------------
